@@ -480,8 +480,14 @@ impl<B: Backend> Pool<B> {
                 alloc::pause(|| {
                     let mut text = |what: &str, got: String, exp: String| { if got != exp { viols.push(format!("h{} {} text differs: got {} expected {}", i, what, got, exp)); } };
                     match h {
-                        H::Byt(b) => text("Debug", format!("{:?}", b), format!("{:?}", &sh[..])),
-                        H::Str(s) => if let Ok(e) = std::str::from_utf8(sh) { text("Debug", format!("{:?}", s), format!("{:?}", e)); text("Display", format!("{}", s), format!("{}", e)); },
+                        // formatting flags (width, fill, alignment, precision, alternate, hex) must reach the std implementation
+                        H::Byt(b) => { text("Debug", format!("{:?}", b), format!("{:?}", &sh[..])); text("Debug {:x?}", format!("{:x?}", b), format!("{:x?}", &sh[..])); if sh.len() <= 4 { text("Debug {:#?}", format!("{:#?}", b), format!("{:#?}", &sh[..])); } }
+                        H::Str(s) => if let Ok(e) = std::str::from_utf8(sh) {
+                            text("Debug", format!("{:?}", s), format!("{:?}", e)); text("Display", format!("{}", s), format!("{}", e));
+                            text("Display {:>70}", format!("{:>70}", s), format!("{:>70}", e)); text("Display {:*^9}", format!("{:*^9}", s), format!("{:*^9}", e));
+                            text("Display {:.3}", format!("{:.3}", s), format!("{:.3}", e)); text("Display {:<8.2}", format!("{:<8.2}", s), format!("{:<8.2}", e));
+                            text("Debug {:12?}", format!("{:12?}", s), format!("{:12?}", e)); text("to_string", s.to_string(), e.to_string());
+                        },
                         H::Os(s) => {
                             text("Debug", format!("{:?}", s), format!("{:?}", os(sh)));
                             if s.as_os_str().as_bytes() != &sh[..] || s.len() != sh.len() || s.is_empty() != sh.is_empty() { viols.push(format!("h{} as_os_str/len disagree with the std model {}", i, hex(sh))); }
@@ -489,6 +495,7 @@ impl<B: Backend> Pool<B> {
                         H::Path(s) => {
                             text("Debug", format!("{:?}", s), format!("{:?}", pa(sh)));
                             text("Display", s.display().to_string(), pa(sh).display().to_string());
+                            text("Display {:>70}", format!("{:>70}", s.display()), format!("{:>70}", pa(sh).display()));
                             if s.as_path() != pa(sh) || s.as_path().as_os_str().as_bytes() != &sh[..] || s.as_os_str().as_bytes() != &sh[..] { viols.push(format!("h{} as_path/as_os_str disagree with the std model {}", i, hex(sh))); }
                         }
                     }
@@ -617,7 +624,8 @@ fn gen_op_raw<B: Backend>(rng: &mut Rng, p: &Pool<B>, force_ok: bool) -> Op {
         28 => if is_str { Op::ToAscii(h, rng.chance(1, 2)) } else { Op::ToMutWrite(h, rng.below(len + 2), rng.below(256) as u8) },
         29 => Op::MakeAscii(h, rng.chance(1, 2)),
         30 => Op::ToAscii(h, rng.chance(1, 2)),
-        31 => Op::Repeat(h, *rng.pick(&[0, 1, 2, 3, 5])),
+        // small counts, and counts whose product with the length overflows usize (wrapping to a small number) or isize
+        31 => Op::Repeat(h, if len >= 1 && rng.chance(1, 4) { match rng.below(3) { 0 => usize::MAX, 1 => if len >= 2 { usize::MAX / len + 1 } else { usize::MAX }, _ => if len >= 2 { (1usize << 63) / (len.next_power_of_two() / 2).max(1) } else { 1usize << 63 } } } else { *rng.pick(&[0, 1, 2, 3, 5]) }),
         32 => {
             let mut script = vec![];
             let mut cur = len;
@@ -666,6 +674,12 @@ pub fn corpus(ty: Ty) -> Vec<Vec<Op>> {
         vec![Op::Borrowed(b(40)), Op::Clone(0), Op::Slice(0, Included(3), Excluded(9)), Op::MakeAscii(0, true), Op::PushSlice(1, b(1)), Op::IntoOwned(2), Op::Truncate(1, 2)],
         vec![Op::FromSlice(b(30)), Op::Clone(0), Op::ShrinkTo(0, 0), Op::WithCapacity(100), Op::ShrinkTo(3, 50), Op::ShrinkTo(3, 10), Op::ShrinkToFit(0)],
         vec![Op::FromSlice(b(12)), Op::Repeat(0, 2), Op::Repeat(0, 1), Op::Repeat(0, 0), Op::Repeat(1, 3), Op::ToAscii(4, true)],
+        // products that wrap around usize to a small number (must panic like std, in release too)
+        vec![Op::FromSlice(b(2)), Op::Repeat(0, 1 << 63), Op::Borrowed(b(32)), Op::Repeat(1, 1 << 59), Op::Repeat(0, usize::MAX), Op::FromSlice(b(32)), Op::Repeat(2, 1 << 59), Op::Repeat(2, (1 << 59) + 1)],
+        // a short heap value (with_capacity lineage) that is shared, then edited through the copying accessors
+        vec![Op::WithCapacity(30), Op::PushSlice(0, b(10)), Op::Clone(0), Op::MakeAscii(0, true), Op::ToAscii(1, true), Op::Clone(1), Op::MakeAscii(1, false), Op::PushSlice(3, b(2))],
+        // a Unique/ceiling clone of a shortened view copies the view, not the owner's vector
+        vec![Op::FromSlice(b(48)), Op::Truncate(0, 24), Op::Clone(0), Op::ToAscii(0, true), Op::Pop(0), Op::Clone(0), Op::ForceCount(0, 0), Op::Clone(0), Op::RestoreCount(0)],
     ]
 }
 
@@ -703,6 +717,7 @@ fn run_case<B: Backend>(bk: &str, ty: Ty, ops_src: &mut dyn FnMut(&Pool<B>, usiz
     let mut pool: Pool<B> = Pool::new(ty, bk == "BUnique");
     alloc::reset_window_counters();
     let base = alloc::snap();
+    let (mut last_live, mut forgot_guard) = (0i64, false);
     let mut steps: Vec<String> = vec![];
     let mut trace: Vec<String> = vec![];
     let mut nontrivial = false;
@@ -759,7 +774,15 @@ fn run_case<B: Backend>(bk: &str, ty: Ty, ops_src: &mut dyn FnMut(&Pool<B>, usiz
         sum.count(&format!("ty={}", ty.name()));
         trace.push(format!("{} -> {}", op.coq(), out.coq()));
         steps.push(format!("BStep ({}) {} {} {} {} {} {}", op.coq(), out.coq(), obs, s.allocs - base.allocs, s.frees - base.frees, s.reallocs - base.reallocs, s.live - base.live));
+        last_live = s.live as i64 - base.live as i64;
+        // (the count hook of the test harness can also strand a block: a forced count is only exact again after RestoreCount)
+        if matches!(op, Op::Mutate(_, _, true) | Op::ForceCount(..)) { forgot_guard = true; }
         if !pool.viol.is_empty() { break; }
+    }
+    // C03: once every value has been dropped or converted away, every block obtained has been released (a forgotten mutate guard is
+    // the one documented way to leak)
+    if pool.viol.is_empty() && !forgot_guard && pool.hs.iter().all(|h| h.is_none()) && last_live != 0 {
+        pool.viol.push(format!("every value has been dropped or converted away but {} block(s) obtained during this history are still allocated (leak)", last_live));
     }
     if !pool.viol.is_empty() {
         sum.violation(format!("{{\"what\":{},\"observed\":{},\"ops\":{}}}", jstr(&format!("bytes {} bk={} ty={} prof={}", case_desc, bk, ty.name(), profile())),
@@ -972,6 +995,8 @@ fn wrappers_api<B: Backend>(bk: &str, sum: &mut Summary) {
         vec![], b"a".to_vec(), b"abc".to_vec(), long[..23].to_vec(), long[..24].to_vec(), long.clone(),
         b"/".to_vec(), b"a/b".to_vec(), b"/abs/path".to_vec(), b".".to_vec(), b"..".to_vec(), b"a/./b".to_vec(), b"a/../b".to_vec(), b"../up".to_vec(),
         b"dir/".to_vec(), b"a//b".to_vec(), b"/usr/lib/with/a/long/tail/of/components/./and/../dots/".to_vec(), b"twenty-three/bytes/long".to_vec(), b"twenty-four/bytes/long/.".to_vec(),
+        // truncated sequences of every length (the replacement character is 3 bytes long, like a 4-byte sequence cut after its third byte)
+        b"\xF0\x9F\xA6".to_vec(), b"ab\xF0\x9F\xA6".to_vec(), b"\xF0\x9F\xA6z".to_vec(), b"\xE2\x82".to_vec(), b"x\xF0\x9Fy".to_vec(), b"\xF0\x9F\xA6\xF0\x9F\xA6".to_vec(),
         vec![0x80], vec![0xFF], b"a\x80/b\xFF".to_vec(), b"caf\xC3\xA9/\xE2\x82\xAC".to_vec(), b"\xC3".to_vec(), b"ok-then-\xED\xA0\x80-surrogate".to_vec(),
     ];
     inputs.push({ let mut v = long.clone(); v[17] = 0xFF; v[30] = 0x80; v });
